@@ -188,7 +188,12 @@ type caseDesc struct {
 
 func TestC15_RetryModel(t *testing.T) {
 	rapid.Check(t, func(rt *rapid.T) {
-		retries := rapid.IntRange(1, 8).Draw(rt, "retries")
+		// configured value: 0 and (a slip of the pen) negative values stand for the default of 5
+		confRetries := rapid.SampledFrom([]int{1, 2, 3, 4, 5, 6, 7, 8, 1, 2, 3, 0, -1}).Draw(rt, "retries")
+		retries := confRetries
+		if retries <= 0 {
+			retries = 5
+		}
 		timeout := rapid.SampledFrom([]int{1, 5, 60}).Draw(rt, "timeout")
 		op := rapid.SampledFrom([]string{"ping", "getkey", "sign"}).Draw(rt, "op")
 		n := rapid.IntRange(0, 9).Draw(rt, "scriptlen")
@@ -210,7 +215,7 @@ func TestC15_RetryModel(t *testing.T) {
 			// offset so that the cancellation never coincides with an attempt boundary
 			cancelAfter = time.Duration(rapid.IntRange(0, 120000).Draw(rt, "cancel_ms"))*time.Millisecond + 337001*time.Nanosecond
 		}
-		cd := &caseDesc{Op: op, Retries: retries, Timeout: timeout}
+		cd := &caseDesc{Op: op, Retries: confRetries, Timeout: timeout}
 		for _, o := range script {
 			cd.Script = append(cd.Script, outcomeNames[o])
 		}
@@ -229,7 +234,7 @@ func TestC15_RetryModel(t *testing.T) {
 			old := http.DefaultClient.Transport
 			http.DefaultClient.Transport = tr
 			defer func() { http.DefaultClient.Transport = old }()
-			cfg := testConfig(retries, timeout)
+			cfg := testConfig(confRetries, timeout)
 			wt, err := worker.NewVerifClient(cfg, "tok", "worker.invalid:1", "the-cookie")
 			if err != nil {
 				fatalf("hook: %v", err)
